@@ -155,7 +155,7 @@ static bool spec_tuple(int n, uint32 op, uint32 mop, const Bytes & v, const Byte
 {
    float a[4], b[4];
    memcpy(a, &v[0], n*4); memcpy(b, &operand[0], n*4);
-   if (mop != 0) for (int i=0; i<n; i++) a[i] = 0.0f;
+   if (mop != 0) {if (n == 2) {const Point d; memcpy(a, &d[0], 8);} else {const Rect d; memcpy(a, &d[0], 16);}}   // a default-constructed Point / Rect
    bool eq = true, lt = false, gt = false;
    for (int i=0; i<n; i++) if (a[i] != b[i]) eq = false;
    for (int i=0; i<n; i++) {if (a[i] < b[i]) {lt = true; break;} if (a[i] > b[i]) break;}
